@@ -92,3 +92,33 @@ class _:
     }
     raises = {"ValueError": {"when": "not isinstance(name, list)"}, "InvalidNameError": {"when": None}}
     modifies = []
+
+
+for _prop in ("merge_last_name_first", "merge_first_name_first"):
+    contract(NM + "NameParts." + _prop)(type("_", (), {
+        "__doc__": "INTERFACE (assumed here; the merged text is decided by the bounded layer p14 against the inverse-pair law): a str is "
+                   "returned, nothing is written, nothing is raised",
+        "trusted": True, "sorts": {"self": "ref:NameParts", "result": "str"}, "ensures": {"a-str": "True"}, "raises": {}, "modifies": []}))
+
+
+@contract(NM + "MergeNameParts._transform_field_value")
+class _:
+    """a list of NameParts is mapped, element by element and in order, to the merged text of each person in the configured
+    style (one str per person); an unknown style -> ValueError; an element that is not a NameParts has no such attribute
+    -> AttributeError.  (The guard in front, `not isinstance(name, list) and all(...)`, can only fire for a non-list,
+    which is outside this contract: the middleware expects the list SplitNameParts produced.)"""
+    sorts = {"self": "ref:MergeNameParts", "name": "any", "result": "list:str"}
+    requires = {"a-list": "isinstance(name, list)"}
+    comp_loops = {
+        1: {"acc": "comp1", "elemkind": "str", "cursor": "_i", "invariant": {
+            "range": "0 <= _i <= len(as_ref(name, 'list:any')) and fresh(comp1) and len(comp1) == _i and len(as_ref(name, 'list:any')) == old(len(as_ref(name, 'list:any')))"},
+            "props": ("C14",)},
+        2: {"acc": "comp2", "elemkind": "str", "cursor": "_i", "invariant": {
+            "range": "0 <= _i <= len(as_ref(name, 'list:any')) and fresh(comp2) and len(comp2) == _i and len(as_ref(name, 'list:any')) == old(len(as_ref(name, 'list:any')))"},
+            "props": ("C14",)},
+    }
+    locals = {"comp1": "list:str", "comp2": "list:str"}
+    ensures = {"C14.one-per-person": "fresh(result) and len(result) == len(as_ref(name, 'list:any'))"}
+    raises = {"ValueError": {"when": "not (isstr(self.style) and (sval(self.style) == 'last' or sval(self.style) == 'first'))"},
+              "AttributeError": {"when": None}}
+    modifies = []
